@@ -7,6 +7,7 @@ import (
 	"math/big"
 	"runtime"
 	"strconv"
+	"sync"
 	"testing"
 
 	"github.com/goblimey/go-ntrip/rtcm/utils"
@@ -427,6 +428,102 @@ func genNeighbour(t *rapid.T) NeighbourCase {
 var propNeighbour = stats.Prop(R, "neighbour-writer", genNeighbour, checkNeighbour)
 
 func TestNeighbourWriter(t *testing.T) { rapid.Check(t, propNeighbour) }
+
+// Shared readers: several goroutines extract fields (the same, adjacent, overlapping ones) from ONE buffer
+// at the same time, as the consumers of one message do.  Reading is all they do, so every value must be
+// right and the buffer must be what it was.
+type SharedCase struct {
+	Buf    stats.Hex `json:"buf"`
+	Fields [][2]int  `json:"fields"` // (pos, width) per goroutine
+	Rounds int       `json:"rounds"`
+}
+
+func checkShared(c SharedCase, o *stats.Obs) error {
+	buf := append([]byte{}, c.Buf...)
+	for _, f := range c.Fields {
+		if f[1] < 1 || f[1] > 64 || f[0] < 0 || f[0]+f[1] > len(buf)*8 {
+			o.Skip = true
+			return nil
+		}
+	}
+	if len(c.Fields) < 2 {
+		o.Skip = true
+		return nil
+	}
+	errs := make([]error, len(c.Fields))
+	start := make(chan struct{})
+	var wg sync.WaitGroup
+	for g, f := range c.Fields {
+		wantU := u64(ref.Bits(c.Buf, f[0], f[1]))
+		var wantS int64
+		if f[1] >= 2 {
+			wantS = ref.SignedBits(c.Buf, f[0], f[1]).Int64()
+		}
+		wg.Add(1)
+		go func(g, pos, w int) {
+			defer wg.Done()
+			<-start
+			for r := 0; r < c.Rounds && errs[g] == nil; r++ {
+				if got := utils.GetBitsAsUint64(buf, uint(pos), uint(w)); got != wantU {
+					errs[g] = fmt.Errorf("goroutine %d: GetBitsAsUint64(pos %d, width %d) = %#x, want %#x, while %d other goroutines read fields of the same buffer %x", g, pos, w, got, wantU, len(c.Fields)-1, []byte(c.Buf))
+				}
+				if w >= 2 {
+					if got := utils.GetBitsAsInt64(buf, uint(pos), uint(w)); got != wantS {
+						errs[g] = fmt.Errorf("goroutine %d: GetBitsAsInt64(pos %d, width %d) = %d, want %d, while %d other goroutines read fields of the same buffer %x", g, pos, w, got, wantS, len(c.Fields)-1, []byte(c.Buf))
+					}
+				}
+			}
+		}(g, f[0], f[1])
+	}
+	close(start)
+	wg.Wait()
+	for _, e := range errs {
+		if e != nil {
+			o.Key = "shared-readers"
+			return e
+		}
+	}
+	if !bytes.Equal(buf, c.Buf) {
+		o.Key = "shared-readers-buffer-changed"
+		return fmt.Errorf("the buffer changed while %d goroutines only read fields of it: %x -> %x", len(c.Fields), []byte(c.Buf), buf)
+	}
+	o.NonTrivial = true
+	o.Class(fmt.Sprintf("shared-readers-%d", len(c.Fields)))
+	return nil
+}
+
+func genShared(t *rapid.T) SharedCase {
+	n := rapid.IntRange(2, 24).Draw(t, "bufLen")
+	c := SharedCase{Buf: rapid.SliceOfN(rapid.Byte(), n, n).Draw(t, "buf"), Rounds: rapid.SampledFrom([]int{50, 500}).Draw(t, "rounds")}
+	k := rapid.IntRange(2, 8).Draw(t, "readers")
+	w0 := rapid.IntRange(1, 64).Draw(t, "width")
+	pos := rapid.IntRange(0, 7).Draw(t, "firstPos")
+	for i := 0; i < k; i++ {
+		w := w0
+		if rapid.IntRange(0, 3).Draw(t, "ownWidth") == 0 {
+			w = rapid.IntRange(1, 64).Draw(t, "w")
+		}
+		if pos+w > n*8 {
+			pos = rapid.IntRange(0, 7).Draw(t, "wrapPos")
+			if pos+w > n*8 {
+				w = n*8 - pos
+			}
+		}
+		c.Fields = append(c.Fields, [2]int{pos, w})
+		switch rapid.IntRange(0, 2).Draw(t, "next") {
+		case 0: // the adjacent field (shares a byte unless aligned)
+			pos += w
+		case 1: // the same field again
+		default:
+			pos += rapid.IntRange(0, w).Draw(t, "overlap")
+		}
+	}
+	return c
+}
+
+var propShared = stats.Prop(R, "shared-readers", genShared, checkShared)
+
+func TestSharedReaders(t *testing.T) { rapid.Check(t, propShared) }
 
 func TestReplay(t *testing.T) { R.Replay(t) }
 
